@@ -55,7 +55,7 @@ def gen_case(ctx):
     return {
         'cls': rng.choice(util.CLASS_NAMES), 'data': d,
         'pat': util.operand_spec(rng, p, ['Bits', 'BitArray', 'ConstBitStream', 'BitStream', 'str', 'str', 'bytes', 'list', 'bitarray']),
-        'start': ropt(), 'end': ropt(), 'count': rng.choice([None, None, 0, 1, 2, 5, -1]),
+        'start': ropt(), 'end': ropt(), 'count': rng.choice([None, None, 0, 1, 2, 5, -1, 3, 2 ** 31, 2 ** 63 - 1, 2 ** 63, 2 ** 64, 10 ** 30, True]),
         'ba': rng.choice([None, False, True]), 'oba': rng.choice([False, True]),
         'cutbits': rng.choice([1, 2, 3, 7, 8, 9, 64, L, L + 1, 0, -1]),
         'cntval': rng.choice([0, 1, True, False, 7, '']),
